@@ -460,3 +460,26 @@ for _pid, _txt in _E2EAPP.items():
 PROPS["C08"]["assumptions"] = PROPS["C08"]["assumptions"] + [
     "e2eapp demands printed records only at the default exit delay or larger (the property's own clause), with a handful of records per run"]
 
+# additions of rounds 4-6 of seeded changes (see DESIGN.md I.7): what else each check runs now
+_LATER = {
+    "C01": " Also: component live (the real live generator chain, a pass longer than the rescan period), crowd cases of gen (/20../21 through runtime.NumCPU() packet workers of every scan method) and the race pass (gen, live re-run from a -race build of harness + real code); application runs of e2e with -w 1 / -w 2; capture_source_* theorems (the afpacket lock protocol as a transition system: no read touches an unmapped ring for any number of receivers and Close calls).",
+    "C02": " Also: e2erefuse (the real binary, 12 command forms x non-IPv4 target strings x with/without --file / --exclude / --iface / ARP cache: refused iff the model's parseIPNet says so, nothing sent), fill and e2efill (the destination bytes of the frame on the wire, Ethernet and tun), list + subnet argument + exclusions in e2e.",
+    "C03": " Also: every third e2ereply run lists its addresses in a --file next to the subnet; SYN scans run under background noise from before the process starts (RST/ACK/FIN segments of the scanned hosts, SYN+ACKs of hosts that are not scanned); capture_filter_applied_to_every_frame (the attached program is run on every frame read: D30).",
+    "C05": " Also: gen and arpcache (the destination MAC a request gets from the cache, 4- and 16-byte address forms), pipeline (the frame as the socket receives it).",
+    "C06": " Also: engine (the result hand-off with a slow consumer, > 3 x capacity), race pass (proc, engine), reply-flood runs of e2e from a race-enabled build of sx, capture_source_* and capture_filter_applied_to_every_frame theorems.",
+    "C07": " Also: e2eerr (packet scan with an ARP cache that knows some hosts and no gateway: frames and 'no destination MAC' records counted at the process boundary, also with a lagging stderr reader), a run with more than 5 s per packet in e2eslow, errno-valued write failures in pipeline, error_records_written_through (regenerated facts about the error sink), e2eapp, race pass (pipeline, gen).",
+    "C08": " Also: bad lines between the good ones of every pairs file, 24-32 thousand bad lines (errflood), results and error records into one stream (2>&1: every line one whole record), a stderr reader that lags, error_records_written_through, race pass (engine).",
+    "C09": " Also: a /21 with six slow servers among refused neighbours (records name those servers), 1000 filtered hosts with -w 1000, runs under the smallest `ulimit -n` the process starts with, race pass (socks).",
+    "C10": " Also: a third of the scripted servers compress when asked (Accept-Encoding), runs under the smallest `ulimit -n`.",
+    "C11": " Also: e2earp feeds the ARP scan's stdout to `sx tcp syn` as -a <file>, on a pipe, as `< file` and as `-a -`; e2earpkill (the scan ended by SIGKILL / SIGTERM while printing: stdout still loads and holds answers given); race pass (arpcache, proc, gen).",
+    "C12": " Also: blocking_ops_accounted (inventory of EVERY channel operation / Take / Sleep / Wait / Lock / go statement of the tree, regenerated with go/types, equal to the hand-classified table of Spec/Blocking.lean), rate_limited_probe_interruptible (D28), stdin_wait_only_in_read (D29), capture_source_* (lock protocol); e2esigint with slow rates (1/m, 10/h), target lists on a stdin / named pipe that stays open; race pass (cancel, pipeline).",
+    "C13": " Also: e2eapp (bad lines in pairs files, errflood) and e2eerr at the process boundary; iface; trailing-data lines in gen; error_records_written_through.",
+    "C14": " Also: juniqstall (a writer that stalls while hosts are sighted again), race pass (json, proc).",
+    "C16": " Also: appdelay (stdout = /dev/full, text mode: the run still lasts its exit delay), e2eapp.",
+    "C17": " Also: e2efill on the tun device (udp/icmp/tcp framing follows the interface), e2elivesrc (--srcip / --srcmac hold in every pass of a live scan), --srcip values that are addresses of other local interfaces.",
+    "C18": " Also: e2e with the port list split between -p and --ports-file incl. nested ranges; files of several read buffers.",
+    "C19": " Also: pipeline (a write failure of any errno does not end the sender) and gen crowd cases + race pass (each pass probes every address once with all packet workers running).",
+}
+for _pid, _txt in _LATER.items():
+    PROPS[_pid]["level_text"] += _txt
+
